@@ -34,7 +34,7 @@ protected:
 
     template <class TreeClass>
     void P2M(SpTaskGraph<SpSpeculativeModel::SP_NO_SPEC>& runtime, TreeClass& inTree){
-        if(configuration.getTreeHeight() > 2){
+        if(configuration.getTreeHeight() > stopUpperLevel){
             auto& leafGroups = inTree.getLeafGroupsSource();
             const auto& particleGroups = inTree.getParticleGroupsSource();
 
@@ -169,7 +169,7 @@ protected:
 
     template <class TreeClass>
     void L2P(SpTaskGraph<SpSpeculativeModel::SP_NO_SPEC>& runtime, TreeClass& inTree){
-        if(configuration.getTreeHeight() > 2){
+        if(configuration.getTreeHeight() > stopUpperLevel){
             const auto& leafGroups = inTree.getLeafGroupsTarget();
             auto& particleGroups = inTree.getParticleGroupsTarget();
 
